@@ -40,7 +40,11 @@ def main():
             if alt is None:
                 cands = [s for s in core.ALT_HASHSEEDS if str(s) != own]
                 alt = cands[int(os.environ.get("VERIF_WORKER_INDEX", "0")) % len(cands)]
-            ref_x = reference.Reference(tree, cwd=trash, hashseed=alt)
+            opt = os.environ.get("VERIF_REF_OPTIMIZE")
+            if opt is None:
+                opt = "1" if int(os.environ.get("VERIF_WORKER_INDEX", "0")) % 2 == 1 else "0"
+            # the "other process": another hash seed, a plain C locale, and - in every second worker - python -O
+            ref_x = reference.Reference(tree, cwd=trash, hashseed=alt, optimize=(opt == "1"))
             import world_parsers
             world = world_parsers.ParsersWorld(tree, workroot, ref, ref_x)
         elif world_name == "files":
@@ -53,7 +57,8 @@ def main():
         else:
             raise RuntimeError("unknown world " + world_name)
         out.write(json.dumps({"ready": True, "hashseed": os.environ.get("PYTHONHASHSEED"),
-                              "ref_hashseed": getattr(getattr(world, "ref_x", None), "hashseed", None)}) + "\n")
+                              "ref_hashseed": getattr(getattr(world, "ref_x", None), "hashseed", None),
+                              "ref_optimize": getattr(getattr(world, "ref_x", None), "optimize", None)}) + "\n")
         out.flush()
     except BaseException:  # noqa
         out.write(json.dumps({"ready": False, "error": traceback.format_exc()}) + "\n")
